@@ -1185,6 +1185,9 @@ package mast
 //@ requires boxes (and (distinct err persist cache) (distinct hash cacheKey) (<= err W) (<= persist W) (<= hash W) (<= encoded W) (<= cache W) (<= cacheKey W) (<= node W) (not (isNil (Box.Any H persist))))
 //@ requires name [C03 C08] (= (Box.Bytes H hash) (nameHash (bs.val (Box.BS H encoded))))
 //@ requires key [C03] (= (Box.Bytes H cacheKey) (ckey (Box.Any H persist) (Box.Bytes H hash)))
+// the worker publishes the node in the shared cache: by the time the write is queued the node is
+// already marked shared and clean, so no tree that finds it there can take it for a private node
+//@ requires marked [C11] (and (mastNode.shared H (Box.Int H node)) (not (mastNode.dirty H (Box.Int H node))) (not (= (mastNode.source H (Box.Int H node)) 0)))
 //@ ensures stored [C03] (=> (= result anil) (isDurable H (ckey (Box.Any H0 persist) (Box.Bytes H0 hash))))
 //@ ensures mono [C03] (forall ((k Bytes)) (! (=> (isDurable H0 k) (isDurable H k)) :pattern ((isDurable H k))))
 
